@@ -182,6 +182,18 @@ def _gen_program(r: Rng, good: bool) -> Dict[str, Any]:
         # (page 0 <-> page N and page N <-> page M), so that the page rule is exercised in every direction
         stmts.append({"text": f".ORG 0x{org_pool.pop() + r.below(8):X}", "kind": "org"})
         stmts.append({"text": r.choice(NEAR) + r.choice(labels), "kind": "ins"})
+    # the grammar is `start: (line | NEWLINE)*` with `line: label? statement?`: nothing requires a line break between
+    # two statements.  One program in four puts two or three instructions on one source line (the first ones without
+    # operands, so that the split between them is unambiguous)
+    rs = r.child("sameline")
+    if rs.chance(1, 4):
+        # never in front of a leading .ORG (the program may come back to origin 0 later)
+        pos = rs.range(1 if stmts and stmts[0]["kind"] == "org" else 0, len(stmts))
+        group = [{"text": rs.choice(["NOP", "RET", "SC", "RC", "HALT", "TCL", "RETF"]), "kind": "ins"}]
+        if rs.chance(1, 3):
+            group.append({"text": rs.choice(["NOP", "SC", "RC", "WAIT"]), "kind": "ins", "same_line": True})
+        group.append({"text": _fill(rs.choice(NOSYM), rs), "kind": "ins", "same_line": True})
+        stmts[pos:pos] = group
     fault = None
     if not good:
         fault = r.choice(["parse", "dup_label", "undef", "undef"])
@@ -197,6 +209,9 @@ def _gen_program(r: Rng, good: bool) -> Dict[str, Any]:
 def _source(prog: Dict[str, Any]) -> str:
     lines = []
     for s in prog["stmts"]:
+        if s.get("same_line") and lines:
+            lines[-1] += "  " + s["text"]
+            continue
         lines.append((s["label"] + ": " if "label" in s else "    ") + s["text"])
     return "\n".join(lines) + "\n"
 
